@@ -532,8 +532,53 @@ def run_scenario(args):
     return name, bound, stats, viols
 
 
+def shared_files_case(args):
+    """two complete pipeline runs, one after the other, under one HOME with separate output folders (real file system): whatever the
+       second run shares with the first one (the inputs and their neighbours, the per-user configuration, the first run's folder) is
+       either left alone or replaced by a new file - never rewritten in place, where a run that is still reading it would see it torn"""
+    gz, scratch = args
+    import shutil
+    from vlib import syn, run
+    from vlib import worlds as W
+    d = os.path.join(scratch, "c20_shared_%d" % gz)
+    shutil.rmtree(d, ignore_errors=True)
+    w = W.mixed_world(1, groups=False, multimappers=False)
+    paths = syn.materialise(w, d, gz_ref=bool(gz))
+    errs = []
+
+    def snap():
+        st = {}
+        for root, _, files in os.walk(d):
+            if root.startswith(os.path.join(d, "out2")):
+                continue
+            for f in files:
+                p_ = os.path.join(root, f)
+                s_ = os.stat(p_)
+                st[p_] = (s_.st_ino, s_.st_mtime_ns, s_.st_size)
+        return st
+    rc1 = run.run_isoquant(run.base_argv(paths, os.path.join(d, "out1")), paths["home"], os.path.join(d, "o1.txt"))
+    before = snap()
+    rc2 = run.run_isoquant(run.base_argv(paths, os.path.join(d, "out2")), paths["home"], os.path.join(d, "o2.txt"))
+    after = snap()
+    if rc1 or rc2:
+        errs.append(("run-failed", "exit codes %d / %d" % (rc1, rc2)))
+    for p_, (ino, mt, sz) in sorted(before.items()):
+        if p_.endswith("o2.txt") or p_ not in after:
+            continue
+        ino2, mt2, sz2 = after[p_]
+        if ino2 == ino and (mt2, sz2) != (mt, sz):
+            errs.append(("shared-file-rewritten-in-place:%s" % os.path.basename(p_).replace("out1", ""),
+                         "the second run rewrote %s in place (same inode, new time stamp): a run reading it at that moment sees it half-written" %
+                         os.path.relpath(p_, d)))
+    shutil.rmtree(d, ignore_errors=True)
+    return ("shared-files", gz), errs
+
+
 def run(ctx):
     quick = ctx.tier == "quick"
+    for key, errs in core.pmap(shared_files_case, [(0, ctx.scratch), (1, ctx.scratch)]):
+        for k, msg in errs:
+            ctx.violation(k, "two runs in a row (%s reference): %s" % ("gzipped" if key[1] else "plain", msg), {"shared_files": key[1]})
     jobs = []
     two = ["fresh-home-different-gtf", "fresh-home-same-gtf", "existing-config-different-gtf", "cache-hit-vs-miss", "clean-start-vs-hit",
            "same-gtf-different-completeness", "inferred-cached-vs-complete", "reconvert-in-place-vs-hit", "other-annotation-into-cached-folder"]
